@@ -345,6 +345,12 @@ def audit_queries(ctx, dn, G, m, tag="", ts=None, full=True):
                 if nb is None or t is not None:
                     ob2 = Counter((x[0], x[1]) for x in dn.interactions(G, nb, t))
                     ctx.expect(tag + "dn.interactions(G,nbunch,t)", ob2, exp, d2, deviants=dev)
+                # the _iter forms answer like the list forms
+                ctx.expect(tag + "out_interactions_iter(nbunch,t)",
+                           Counter((x[0], x[1]) for x in G.out_interactions_iter(nb, t)), exp, d2)
+                ctx.expect(tag + "in_interactions_iter(nbunch,t)",
+                           Counter((x[0], x[1]) for x in G.in_interactions_iter(nb, t)),
+                           Counter(list(S.in_edges(known))), d2)
                 lo = G.out_interactions(nb, t)
                 ctx.expect(tag + "out_interactions(nbunch,t)", Counter((x[0], x[1]) for x in lo), exp, d2)
                 li = G.in_interactions(nb, t)
@@ -393,6 +399,10 @@ def audit_queries(ctx, dn, G, m, tag="", ts=None, full=True):
         # --- degrees
         degS = dict(S.degree())
         devdeg = (lambda: {"dyngraph-selfloop-counted-once": _dev_degree(S, m)}) if loops else None
+        ctx.expect(tag + "degree_iter(t)", dict(G.degree_iter(t=t)), degS, detail, deviants=devdeg)
+        if m.directed:
+            ctx.expect(tag + "in_degree_iter(t)", dict(G.in_degree_iter(t=t)), dict(S.in_degree()), detail)
+            ctx.expect(tag + "out_degree_iter(t)", dict(G.out_degree_iter(t=t)), dict(S.out_degree()), detail)
         raw = G.degree(t=t)
         ctx.expect(tag + "degree(t)", raw, degS, detail, deviants=devdeg)
         poison(raw)
